@@ -1,2 +1,1001 @@
+(* C04: the four-index store model refines the abstract quad set.  Lemmas only; the property
+   theorems are stated in C04.v. *)
 Require Import KV.Store.Model KV.Store.Spec KV.Store.TrieProofs.
-(* to be filled: Abs, refines, lookup_exact, catalog_history, rebuild_abs *)
+Require Import Lia ZifyBool ZifyN.
+Local Arguments N.eqb : simpl never.
+
+(* ---------- sets as lists ---------- *)
+
+Lemma in_set_add y x l : In y (set_add x l) <-> y = x \/ In y l.
+Proof.
+  induction l as [|z l IH]; cbn [set_add In].
+  - intuition.
+  - destruct (N.eqb_spec x z) as [->|Hne]; cbn [In].
+    + intuition.
+    + rewrite IH. intuition.
+Qed.
+
+Lemma NoDup_set_add x l : NoDup l -> NoDup (set_add x l).
+Proof.
+  induction l as [|z l IH]; cbn [set_add]; intros Hnd.
+  - constructor; [intros []|constructor].
+  - destruct (N.eqb_spec x z) as [->|Hne]; [exact Hnd|].
+    inversion Hnd as [|? ? Hnotin Hnd']; subst. constructor; [|auto].
+    rewrite in_set_add. intros [E|E]; [congruence|tauto].
+Qed.
+
+Lemma set_add_in_id x l : In x l -> set_add x l = l.
+Proof.
+  induction l as [|z l IH]; cbn [set_add In]; [tauto|].
+  destruct (N.eqb_spec x z) as [->|Hne]; [reflexivity|].
+  intros [E|H]; [congruence|]. now rewrite IH.
+Qed.
+
+Lemma in_set_del_weak y x l : In y (set_del x l) -> In y l.
+Proof.
+  induction l as [|z l IH]; cbn [set_del In]; [tauto|].
+  destruct (N.eqb x z); cbn [In]; intuition.
+Qed.
+
+Lemma in_set_del y x l : NoDup l -> (In y (set_del x l) <-> y <> x /\ In y l).
+Proof.
+  induction l as [|z l IH]; cbn [set_del In]; intros Hnd; [tauto|].
+  inversion Hnd as [|? ? Hnotin Hnd']; subst.
+  destruct (N.eqb_spec x z) as [->|Hne]; cbn [In].
+  - split; [intros H; split; [congruence|now right]|].
+    intros [H1 [H2|H2]]; [congruence|exact H2].
+  - rewrite (IH Hnd'). split.
+    + intros [E|[H1 H2]]; [split; [congruence|now left]|split; [exact H1|now right]].
+    + intros [H1 [H2|H2]]; [now left|right; split; assumption].
+Qed.
+
+Lemma NoDup_set_del x l : NoDup l -> NoDup (set_del x l).
+Proof.
+  induction l as [|z l IH]; cbn [set_del]; intros Hnd; [constructor|].
+  inversion Hnd as [|? ? Hnotin Hnd']; subst.
+  destruct (N.eqb x z); [exact Hnd'|]. constructor; [|auto].
+  intros H. apply in_set_del_weak in H. tauto.
+Qed.
+
+Lemma set_mem_in x l : set_mem x l = true <-> In x l.
+Proof.
+  unfold set_mem. rewrite existsb_exists. split.
+  - intros [y [Hy E]]. apply N.eqb_eq in E. congruence.
+  - intros H. exists x. split; [exact H|apply N.eqb_refl].
+Qed.
+
+Lemma set_mem_iff_eq x l l' : (In x l <-> In x l') -> set_mem x l = set_mem x l'.
+Proof.
+  intros H. apply eq_true_iff_eq. rewrite !set_mem_in. exact H.
+Qed.
+
+Lemma in_union_add y xs : forall l, In y (union_add xs l) <-> In y xs \/ In y l.
+Proof.
+  induction xs as [|x xs IH]; intros l; cbn [union_add In]; [tauto|].
+  rewrite IH, in_set_add. intuition.
+Qed.
+
+Lemma NoDup_union_add xs : forall l, NoDup l -> NoDup (union_add xs l).
+Proof.
+  induction xs as [|x xs IH]; intros l Hnd; cbn [union_add]; [exact Hnd|].
+  apply IH. apply NoDup_set_add. exact Hnd.
+Qed.
+
+Lemma same_set_length {A} (a b : list A) : same_set a b -> length a = length b.
+Proof.
+  intros [Ha [Hb Hab]].
+  assert (H1 : (length a <= length b)%nat)
+    by (apply NoDup_incl_length; [exact Ha|intros x Hx; apply Hab; exact Hx]).
+  assert (H2 : (length b <= length a)%nat)
+    by (apply NoDup_incl_length; [exact Hb|intros x Hx; apply Hab; exact Hx]).
+  lia.
+Qed.
+
+(* ---------- quads ---------- *)
+
+Lemma quad_eqb_eq a b : quad_eqb a b = true <-> a = b.
+Proof.
+  destruct a as [[[s p] o] g], b as [[[s' p'] o'] g']. unfold quad_eqb, qs, qp, qo, qg.
+  cbn [fst snd]. split.
+  - intros H. assert (s = s' /\ p = p' /\ o = o' /\ g = g') as [-> [-> [-> ->]]] by lia.
+    reflexivity.
+  - intros H. injection H as -> -> -> ->. rewrite !N.eqb_refl. reflexivity.
+Qed.
+
+Lemma qmem_in q l : qmem q l = true <-> In q l.
+Proof.
+  unfold qmem. rewrite existsb_exists. split.
+  - intros [y [Hy E]]. apply quad_eqb_eq in E. congruence.
+  - intros H. exists q. split; [exact H|]. apply quad_eqb_eq. reflexivity.
+Qed.
+
+Lemma in_qadd x q l : In x (qadd q l) <-> x = q \/ In x l.
+Proof.
+  unfold qadd. destruct (qmem q l) eqn:E; cbn [In].
+  - apply qmem_in in E. intuition congruence.
+  - intuition.
+Qed.
+
+Lemma NoDup_qadd q l : NoDup l -> NoDup (qadd q l).
+Proof.
+  unfold qadd. destruct (qmem q l) eqn:E; [auto|]. intros H. constructor; [|exact H].
+  intros Hin. apply qmem_in in Hin. congruence.
+Qed.
+
+Lemma in_qdel x q l : In x (qdel q l) <-> x <> q /\ In x l.
+Proof.
+  unfold qdel. rewrite filter_In. split.
+  - intros [H1 H2]. split; [|exact H1]. intros ->.
+    assert (quad_eqb q q = true) by (apply quad_eqb_eq; reflexivity).
+    destruct (quad_eqb q q); discriminate.
+  - intros [H1 H2]. split; [exact H2|].
+    destruct (quad_eqb q x) eqn:E; [|reflexivity]. apply quad_eqb_eq in E. congruence.
+Qed.
+
+Lemma in_qdedup x l : In x (qdedup l) <-> In x l.
+Proof.
+  induction l as [|q l IH]; cbn [qdedup In]; [tauto|].
+  destruct (existsb (quad_eqb q) l) eqn:E; cbn [In]; rewrite IH.
+  - change (qmem q l = true) in E. apply qmem_in in E. intuition congruence.
+  - tauto.
+Qed.
+
+Lemma NoDup_qdedup l : NoDup (qdedup l).
+Proof.
+  induction l as [|q l IH]; cbn [qdedup]; [constructor|].
+  destruct (existsb (quad_eqb q) l) eqn:E; [exact IH|].
+  constructor; [|exact IH]. rewrite in_qdedup. intros H.
+  change (qmem q l = false) in E. apply qmem_in in H. congruence.
+Qed.
+
+(* ---------- the invariant of the four indexes ---------- *)
+
+Definition has (st : state) (q : quad) : Prop := contains_quad st q = true.
+
+Record Inv (st : state) : Prop := {
+  inv_wf1 : wf 4 (gspo st);
+  inv_wf2 : wf 4 (gpos st);
+  inv_wf3 : wf 4 (gosp st);
+  inv_wf4 : wf 4 (spog st);
+  inv_gspo : forall s p o g,
+      t_mem [g; s; p; o] (gspo st) = true <-> t_mem [s; p; o; g] (spog st) = true;
+  inv_gpos : forall s p o g,
+      t_mem [g; p; o; s] (gpos st) = true <-> t_mem [s; p; o; g] (spog st) = true;
+  inv_gosp : forall s p o g,
+      t_mem [g; o; s; p] (gosp st) = true <-> t_mem [s; p; o; g] (spog st) = true;
+  inv_nd : NoDup (cat st);
+  inv_cat : forall s p o g,
+      t_mem [s; p; o; g] (spog st) = true -> g <> 0 -> In (N.pred g) (cat st)
+}.
+
+Lemma has_eq st s p o g : has st (s, p, o, g) <-> t_mem [s; p; o; g] (spog st) = true.
+Proof. reflexivity. Qed.
+
+Lemma Inv_init : Inv init.
+Proof.
+  constructor; cbn [init gspo gpos gosp spog cat]; try apply wf_empty;
+    try (intros; rewrite !t_mem_empty; tauto).
+  - constructor.
+  - intros s p o g H. rewrite t_mem_empty in H. discriminate.
+Qed.
+
+Lemma NoDup_register g c : NoDup c -> NoDup (register_graph g c).
+Proof.
+  unfold register_graph. destruct (N.eqb g 0); [auto|apply NoDup_set_add].
+Qed.
+
+Lemma in_register x g c : In x (register_graph g c) <-> (g <> 0 /\ x = N.pred g) \/ In x c.
+Proof.
+  unfold register_graph. destruct (N.eqb_spec g 0) as [->|Hne].
+  - intuition.
+  - rewrite in_set_add. intuition.
+Qed.
+
+Lemma register_id g c : (g <> 0 -> In (N.pred g) c) -> register_graph g c = c.
+Proof.
+  unfold register_graph. destruct (N.eqb_spec g 0) as [->|Hne]; [reflexivity|].
+  intros H. apply set_add_in_id. auto.
+Qed.
+
+Lemma insert_spec st q : Inv st ->
+  Inv (fst (insert_quad st q)) /\
+  (forall q', has (fst (insert_quad st q)) q' <-> q' = q \/ has st q') /\
+  cat (fst (insert_quad st q)) = register_graph (qg q) (cat st) /\
+  snd (insert_quad st q) = negb (contains_quad st q).
+Proof.
+  intros HI. destruct q as [[[s p] o] g]. unfold insert_quad, has, contains_quad.
+  cbn [qs qp qo qg fst snd gspo gpos gosp spog cat].
+  destruct (t_mem [s; p; o; g] (spog st)) eqn:E; cbn [fst snd gspo gpos gosp spog cat].
+  - split; [|split; [|split; reflexivity]].
+    + destruct HI. constructor; cbn [gspo gpos gosp spog cat]; auto.
+      * apply NoDup_register; assumption.
+      * intros s' p' o' g' H Hg. apply in_register. right. eauto.
+    + intros [[[s' p'] o'] g']. cbn [qs qp qo qg fst snd]. split; [tauto|].
+      intros [H|H]; [injection H as -> -> -> ->; exact E|exact H].
+  - split; [|split; [|split; reflexivity]].
+    + destruct HI. constructor; cbn [gspo gpos gosp spog cat].
+      * apply (wf_insert [g; s; p; o]); assumption.
+      * apply (wf_insert [g; p; o; s]); assumption.
+      * apply (wf_insert [g; o; s; p]); assumption.
+      * apply (wf_insert [s; p; o; g]); assumption.
+      * intros s' p' o' g'. rewrite !t_mem_insert by reflexivity. rewrite inv_gspo0.
+        split; (intros [H|H]; [left; congruence|now right]).
+      * intros s' p' o' g'. rewrite !t_mem_insert by reflexivity. rewrite inv_gpos0.
+        split; (intros [H|H]; [left; congruence|now right]).
+      * intros s' p' o' g'. rewrite !t_mem_insert by reflexivity. rewrite inv_gosp0.
+        split; (intros [H|H]; [left; congruence|now right]).
+      * apply NoDup_register; assumption.
+      * intros s' p' o' g'. rewrite t_mem_insert by reflexivity. intros [H|H] Hg.
+        -- injection H as <- <- <- <-. apply in_register. left. split; [exact Hg|reflexivity].
+        -- apply in_register. right. eauto.
+    + intros [[[s' p'] o'] g']. cbn [qs qp qo qg fst snd]. rewrite t_mem_insert by reflexivity.
+      split; (intros [H|H]; [left; injection H; intros; subst; reflexivity|now right]).
+Qed.
+
+Lemma delete_spec st q : Inv st ->
+  Inv (fst (delete_quad st q)) /\
+  (forall q', has (fst (delete_quad st q)) q' <-> q' <> q /\ has st q') /\
+  cat (fst (delete_quad st q)) = cat st /\
+  snd (delete_quad st q) = contains_quad st q.
+Proof.
+  intros HI. destruct q as [[[s p] o] g]. unfold delete_quad, has, contains_quad.
+  cbn [qs qp qo qg fst snd].
+  destruct (t_mem [s; p; o; g] (spog st)) eqn:E; cbn [negb fst snd gspo gpos gosp spog cat].
+  - assert (Hreg : register_graph g (cat st) = cat st).
+    { apply register_id. intros Hg. destruct HI. eauto. }
+    split; [|split; [|split; [exact Hreg|reflexivity]]].
+    + destruct HI. constructor; cbn [gspo gpos gosp spog cat].
+      * apply (wf_remove [g; s; p; o]); assumption.
+      * apply (wf_remove [g; p; o; s]); assumption.
+      * apply (wf_remove [g; o; s; p]); assumption.
+      * apply (wf_remove [s; p; o; g]); assumption.
+      * intros s' p' o' g'.
+        rewrite !t_mem_remove by (try discriminate; try reflexivity; assumption).
+        rewrite inv_gspo0. split; (intros [H1 H2]; split; [congruence|exact H2]).
+      * intros s' p' o' g'.
+        rewrite !t_mem_remove by (try discriminate; try reflexivity; assumption).
+        rewrite inv_gpos0. split; (intros [H1 H2]; split; [congruence|exact H2]).
+      * intros s' p' o' g'.
+        rewrite !t_mem_remove by (try discriminate; try reflexivity; assumption).
+        rewrite inv_gosp0. split; (intros [H1 H2]; split; [congruence|exact H2]).
+      * rewrite Hreg. assumption.
+      * intros s' p' o' g'.
+        rewrite t_mem_remove by (try discriminate; try reflexivity; assumption).
+        intros [_ H] Hg. rewrite Hreg. eauto.
+    + intros [[[s' p'] o'] g']. cbn [qs qp qo qg fst snd].
+      rewrite t_mem_remove by (try discriminate; try reflexivity; apply HI).
+      split; (intros [H1 H2]; split;
+              [intros Heq; apply H1; injection Heq; intros; subst; reflexivity|exact H2]).
+  - split; [exact HI|split; [|split; reflexivity]].
+    intros [[[s' p'] o'] g']. cbn [qs qp qo qg fst snd]. split; [|tauto].
+    intros H. split; [|exact H]. intros Heq. injection Heq as -> -> -> ->.
+    rewrite E in H. discriminate.
+Qed.
+
+Lemma create_spec st g : Inv st ->
+  Inv (fst (create_graph st g)) /\
+  (forall q, has (fst (create_graph st g)) q <-> has st q) /\
+  cat (fst (create_graph st g)) = (if N.eqb g 0 then cat st else set_add (N.pred g) (cat st)).
+Proof.
+  intros HI. unfold create_graph. destruct (N.eqb g 0); cbn [fst].
+  - split; [exact HI|split; [tauto|reflexivity]].
+  - split; [|split; [tauto|reflexivity]].
+    destruct HI. constructor; cbn [gspo gpos gosp spog cat]; auto.
+    + apply NoDup_set_add; assumption.
+    + intros s p o g' H Hg. apply in_set_add. right. eauto.
+Qed.
+
+(* ---------- observers ---------- *)
+
+Ltac belim := repeat match goal with
+  | H : _ && _ = true |- _ => apply andb_true_iff in H; destruct H
+  | H : N.eqb _ _ = true |- _ => apply N.eqb_eq in H
+  | H : negb _ = true |- _ => apply negb_true_iff in H
+  | H : N.eqb _ _ = false |- _ => apply N.eqb_neq in H
+  end.
+
+Ltac fixlen r H := destruct r as [|? [|? [|? [|? ?]]]]; try discriminate H.
+
+Lemma in_sub_paths d pre t r : wf (length pre + d) t ->
+  (In r (sub_paths d pre t) <-> length r = d /\ t_mem (pre ++ r) t = true).
+Proof.
+  intros Hwf. unfold sub_paths. rewrite t_mem_app. destruct (t_sub pre t) as [c|] eqn:E.
+  - apply in_paths. apply (wf_sub pre d t c Hwf E).
+  - split; [intros []|intros [_ H]; discriminate].
+Qed.
+
+Lemma NoDup_sub_paths d pre t : wf (length pre + d) t -> NoDup (sub_paths d pre t).
+Proof.
+  intros Hwf. unfold sub_paths. destruct (t_sub pre t) as [c|] eqn:E; [|constructor].
+  apply NoDup_paths. apply (wf_sub pre d t c Hwf E).
+Qed.
+
+Lemma map_sub_paths_spec (f : list N -> quad) (P : quad -> Prop) d pre t :
+  wf (length pre + d) t ->
+  (forall r1 r2, length r1 = d -> length r2 = d -> f r1 = f r2 -> r1 = r2) ->
+  (forall q, (exists r, length r = d /\ t_mem (pre ++ r) t = true /\ f r = q) <-> P q) ->
+  NoDup (map f (sub_paths d pre t)) /\ forall q, In q (map f (sub_paths d pre t)) <-> P q.
+Proof.
+  intros Hwf Hinj HP. split.
+  - apply NoDup_map_inj_on; [apply NoDup_sub_paths; exact Hwf|].
+    intros x y Hx Hy. apply (in_sub_paths d pre t _ Hwf) in Hx, Hy. apply Hinj; tauto.
+  - intros q. rewrite <- HP, in_map_iff. split.
+    + intros [r [Hf Hr]]. apply (in_sub_paths d pre t _ Hwf) in Hr. exists r. tauto.
+    + intros [r [Hl [Hm Hf]]]. exists r. split; [exact Hf|].
+      apply (in_sub_paths d pre t _ Hwf). tauto.
+Qed.
+
+Ltac qg_inj :=
+  let r1 := fresh "r1" in let r2 := fresh "r2" in
+  let H1 := fresh "H1" in let H2 := fresh "H2" in let Hf := fresh "Hf" in
+  intros r1 r2 H1 H2 Hf; fixlen r1 H1; fixlen r2 H2;
+  cbn [nth] in Hf; unfold mkq in Hf; injection Hf; intros; subst; reflexivity.
+
+(* first half of the characterisation: every produced row is a stored, matching quad *)
+Ltac qg_sound HI lem :=
+  let r := fresh "r" in let Hl := fresh "Hl" in let Hm := fresh "Hm" in let Hf := fresh "Hf" in
+  intros [r [Hl [Hm Hf]]]; fixlen r Hl; cbn [nth app] in *; unfold mkq in Hf;
+  injection Hf as <- <- <- <-;
+  split; [rewrite ?N.eqb_refl; reflexivity|apply (lem _ HI); exact Hm].
+
+Ltac qg_complete HI lem w :=
+  exists w; split; [reflexivity|split; [cbn [app]; apply (lem _ HI); assumption|reflexivity]].
+
+Lemma query_graph_spec st g s p o : Inv st ->
+  NoDup (query_graph st g s p o) /\
+  forall q, In q (query_graph st g s p o) <-> matches g s p o q = true /\ has st q.
+Proof.
+  intros HI. destruct s as [ss|], p as [pp|], o as [oo|]; cbn [query_graph].
+  - destruct (contains_quad st (mkq ss pp oo g)) eqn:E.
+    + split; [constructor; [intros []|constructor]|].
+      intros [[[s' p'] o'] g']. unfold matches, has. cbn [In qs qp qo qg fst snd opt_ok]. split.
+      * intros [H|[]]. unfold mkq in H. injection H as <- <- <- <-.
+        split; [rewrite !N.eqb_refl; reflexivity|exact E].
+      * intros [Hb Hm]. left. belim. subst. reflexivity.
+    + split; [constructor|]. intros [[[s' p'] o'] g']. unfold matches, has.
+      cbn [In qs qp qo qg fst snd opt_ok]. split; [intros []|]. intros [Hb Hm]. belim. subst.
+      unfold mkq in E. rewrite E in Hm. discriminate.
+  - apply map_sub_paths_spec; [exact (inv_wf1 _ HI)|qg_inj|].
+    intros [[[s' p'] o'] g']. unfold matches, has, contains_quad.
+    cbn [qs qp qo qg fst snd opt_ok]. split; [qg_sound HI inv_gspo|].
+    intros [Hb Hm]. belim. subst. qg_complete HI inv_gspo [o'].
+  - apply map_sub_paths_spec; [exact (inv_wf3 _ HI)|qg_inj|].
+    intros [[[s' p'] o'] g']. unfold matches, has, contains_quad.
+    cbn [qs qp qo qg fst snd opt_ok]. split; [qg_sound HI inv_gosp|].
+    intros [Hb Hm]. belim. subst. qg_complete HI inv_gosp [p'].
+  - apply map_sub_paths_spec; [exact (inv_wf1 _ HI)|qg_inj|].
+    intros [[[s' p'] o'] g']. unfold matches, has, contains_quad.
+    cbn [qs qp qo qg fst snd opt_ok]. split; [qg_sound HI inv_gspo|].
+    intros [Hb Hm]. belim. subst. qg_complete HI inv_gspo [p'; o'].
+  - apply map_sub_paths_spec; [exact (inv_wf2 _ HI)|qg_inj|].
+    intros [[[s' p'] o'] g']. unfold matches, has, contains_quad.
+    cbn [qs qp qo qg fst snd opt_ok]. split; [qg_sound HI inv_gpos|].
+    intros [Hb Hm]. belim. subst. qg_complete HI inv_gpos [s'].
+  - apply map_sub_paths_spec; [exact (inv_wf2 _ HI)|qg_inj|].
+    intros [[[s' p'] o'] g']. unfold matches, has, contains_quad.
+    cbn [qs qp qo qg fst snd opt_ok]. split; [qg_sound HI inv_gpos|].
+    intros [Hb Hm]. belim. subst. qg_complete HI inv_gpos [o'; s'].
+  - apply map_sub_paths_spec; [exact (inv_wf3 _ HI)|qg_inj|].
+    intros [[[s' p'] o'] g']. unfold matches, has, contains_quad.
+    cbn [qs qp qo qg fst snd opt_ok]. split; [qg_sound HI inv_gosp|].
+    intros [Hb Hm]. belim. subst. qg_complete HI inv_gosp [s'; p'].
+  - apply map_sub_paths_spec; [exact (inv_wf1 _ HI)|qg_inj|].
+    intros [[[s' p'] o'] g']. unfold matches, has, contains_quad.
+    cbn [qs qp qo qg fst snd opt_ok]. split; [qg_sound HI inv_gspo|].
+    intros [Hb Hm]. belim. subst. qg_complete HI inv_gspo [s'; p'; o'].
+Qed.
+
+Lemma gspo_root st g : Inv st -> In g (keys (gspo st)) -> exists s p o, has st (s, p, o, g).
+Proof.
+  intros HI Hin. apply (root_key 3 _ _ (inv_wf1 _ HI)) in Hin. destruct Hin as [ks [Hl Hm]].
+  destruct ks as [|s [|p [|o [|? ?]]]]; try discriminate Hl.
+  exists s, p, o. apply has_eq. apply (inv_gspo _ HI). exact Hm.
+Qed.
+
+Lemma has_cat st q : Inv st -> has st q -> qg q <> 0 -> In (N.pred (qg q)) (cat st).
+Proof.
+  destruct q as [[[s p] o] g]. intros HI H. apply (inv_cat _ HI s p o g). exact H.
+Qed.
+
+Lemma named_graphs_spec st : Inv st ->
+  NoDup (named_graphs st) /\
+  forall x, In x (named_graphs st) <-> x <> 0 /\ In (N.pred x) (cat st).
+Proof.
+  intros HI. unfold named_graphs. split.
+  - apply NoDup_union_add. apply NoDup_map_inj_on; [apply (inv_nd _ HI)|].
+    intros x y _ _ H. lia.
+  - intros x. rewrite in_union_add, filter_In, in_map_iff. split.
+    + intros [[Hk Hz]|[y [Hy Hin]]].
+      * belim. destruct (gspo_root st x HI Hk) as [s [p [o H]]]. split; [assumption|].
+        apply (has_cat st (s, p, o, x) HI H). assumption.
+      * subst x. split; [lia|]. rewrite N.pred_succ. exact Hin.
+    + intros [Hz Hin]. right. exists (N.pred x). split; [lia|exact Hin].
+Qed.
+
+Lemma graph_exists_spec st g : Inv st ->
+  graph_exists st g = (N.eqb g 0 || set_mem (N.pred g) (cat st)).
+Proof.
+  intros HI. unfold graph_exists. destruct (N.eqb_spec g 0) as [->|Hne]; [reflexivity|].
+  cbn [orb]. destruct (set_mem (N.pred g) (cat st)) eqn:E; [reflexivity|]. cbn [orb].
+  destruct (aget g (ents (gspo st))) eqn:Ea; [|reflexivity]. exfalso.
+  assert (Hk : In g (keys (gspo st))) by (unfold keys; apply aget_some_key; congruence).
+  destruct (gspo_root st g HI Hk) as [s [p [o H]]].
+  pose proof (has_cat st (s, p, o, g) HI H Hne) as Hin. apply set_mem_in in Hin.
+  cbn [qg snd] in Hin. congruence.
+Qed.
+
+Lemma matches_qg g s p o q : matches g s p o q = true -> qg q = g.
+Proof. unfold matches. intros H. belim. assumption. Qed.
+
+Lemma all_quads_spec st : Inv st ->
+  NoDup (all_quads st) /\ forall q, In q (all_quads st) <-> has st q.
+Proof.
+  intros HI. destruct (named_graphs_spec st HI) as [Hnd Hng]. unfold all_quads, graphs. split.
+  - apply NoDup_flat_map.
+    + constructor; [|exact Hnd]. intros H. apply Hng in H. tauto.
+    + intros x _. apply (query_graph_spec st x None None None HI).
+    + intros x y b _ _ Hx Hy.
+      apply (query_graph_spec st x None None None HI) in Hx.
+      apply (query_graph_spec st y None None None HI) in Hy.
+      destruct Hx as [Hx _], Hy as [Hy _]. apply matches_qg in Hx, Hy. congruence.
+  - intros q. rewrite in_flat_map. split.
+    + intros [g [_ H]]. apply (query_graph_spec st g None None None HI) in H. tauto.
+    + intros H. exists (qg q). split.
+      * destruct (N.eq_dec (qg q) 0) as [E|E]; [left; congruence|right].
+        apply Hng. split; [exact E|]. apply has_cat; assumption.
+      * apply (query_graph_spec st (qg q) None None None HI). split; [|exact H].
+        unfold matches. cbn [opt_ok]. rewrite N.eqb_refl. reflexivity.
+Qed.
+
+Definition named_pred (s p o : option N) (vis : option (list N)) (q : quad) : bool :=
+  negb (N.eqb (qg q) 0) && vis_ok vis (qg q) && opt_ok s (qs q) && opt_ok p (qp q) && opt_ok o (qo q).
+
+Lemma slow_spec st s p o vis : Inv st ->
+  let slow := flat_map (fun g => if vis_ok vis g then query_graph st g s p o else [])
+                       (named_graphs st) in
+  NoDup slow /\ forall q, In q slow <-> named_pred s p o vis q = true /\ has st q.
+Proof.
+  intros HI slow. subst slow. destruct (named_graphs_spec st HI) as [Hnd Hng].
+  assert (Hel : forall g b, In b (if vis_ok vis g then query_graph st g s p o else []) ->
+                            vis_ok vis g = true /\ matches g s p o b = true /\ has st b).
+  { intros g b H. destruct (vis_ok vis g); [|destruct H].
+    apply (query_graph_spec st g s p o HI) in H. tauto. }
+  split.
+  - apply NoDup_flat_map; [exact Hnd| |].
+    + intros x _. destruct (vis_ok vis x); [|constructor].
+      apply (query_graph_spec st x s p o HI).
+    + intros x y b _ _ Hx Hy. apply Hel in Hx, Hy.
+      destruct Hx as [_ [Hx _]], Hy as [_ [Hy _]]. apply matches_qg in Hx, Hy. congruence.
+  - intros q. rewrite in_flat_map. unfold named_pred. split.
+    + intros [g [Hg H]]. apply Hel in H. destruct H as [Hv [Hm Hh]]. split; [|exact Hh].
+      apply Hng in Hg. destruct Hg as [Hz _]. unfold matches in Hm. belim. subst g.
+      rewrite !andb_true_iff, negb_true_iff, N.eqb_neq. tauto.
+    + intros [Hb Hh]. belim. exists (qg q). split.
+      * apply Hng. split; [assumption|]. apply has_cat; assumption.
+      * replace (vis_ok vis (qg q)) with true by (symmetry; assumption).
+        apply (query_graph_spec st (qg q) s p o HI). split; [|exact Hh].
+        unfold matches. rewrite N.eqb_refl, !andb_true_iff. tauto.
+Qed.
+
+Lemma sub3_spec st s p o c : Inv st -> t_sub [s; p; o] (spog st) = Some c ->
+  NoDup (keys c) /\ forall g, In g (keys c) <-> has st (s, p, o, g).
+Proof.
+  intros HI E. pose proof (wf_sub [s; p; o] 1 _ c (inv_wf4 _ HI) E) as Hwf. split.
+  - apply Hwf.
+  - intros g. rewrite in_keys_mem, has_eq.
+    change [s; p; o; g] with ([s; p; o] ++ [g]). rewrite t_mem_app, E. tauto.
+Qed.
+
+Lemma sub3_none st s p o g : t_sub [s; p; o] (spog st) = None -> ~ has st (s, p, o, g).
+Proof.
+  intros E H. change (t_mem ([s; p; o] ++ [g]) (spog st) = true) in H.
+  rewrite t_mem_app, E in H. discriminate.
+Qed.
+
+Lemma query_named_spec st s p o vis : Inv st ->
+  NoDup (query_named_graphs st s p o vis) /\
+  forall q, In q (query_named_graphs st s p o vis) <-> named_pred s p o vis q = true /\ has st q.
+Proof.
+  intros HI. pose proof (slow_spec st s p o vis HI) as Hslow. cbv zeta in Hslow.
+  unfold query_named_graphs.
+  destruct s as [ss|]; [|exact Hslow]. destruct p as [pp|]; [|exact Hslow].
+  destruct o as [oo|]; [|exact Hslow].
+  destruct (t_sub [ss; pp; oo] (spog st)) as [c|] eqn:E; [|exact Hslow].
+  destruct (sub3_spec st ss pp oo c HI E) as [Hnd Hk]. split.
+  - apply NoDup_map_inj_on; [apply NoDup_filter; exact Hnd|].
+    intros x y _ _ H. unfold mkq in H. injection H as ->. reflexivity.
+  - intros [[[s' p'] o'] g']. rewrite in_map_iff. unfold named_pred.
+    cbn [qs qp qo qg fst snd opt_ok]. split.
+    + intros [g [Hq Hg]]. unfold mkq in Hq. injection Hq as <- <- <- <-.
+      apply filter_In in Hg. destruct Hg as [Hg Hb]. split; [|apply Hk; exact Hg].
+      rewrite !N.eqb_refl, !andb_true_r. exact Hb.
+    + intros [Hb Hh]. belim. subst. exists g'. split; [reflexivity|].
+      apply filter_In. split; [apply Hk; exact Hh|].
+      rewrite andb_true_iff, negb_true_iff, N.eqb_neq. tauto.
+Qed.
+
+Lemma graphs_for_spec st s p o : Inv st ->
+  NoDup (graphs_for_triple st s p o) /\
+  forall g, In g (graphs_for_triple st s p o) <-> has st (s, p, o, g).
+Proof.
+  intros HI. unfold graphs_for_triple. destruct (t_sub [s; p; o] (spog st)) as [c|] eqn:E.
+  - apply sub3_spec; assumption.
+  - split; [constructor|]. intros g. split; [intros []|]. intros H.
+    apply (sub3_none st s p o g E H).
+Qed.
+
+(* ---------- bulk mutators ---------- *)
+
+Lemma delete_all_spec l : forall st, Inv st ->
+  Inv (delete_all st l) /\
+  (forall q, has (delete_all st l) q <-> has st q /\ ~ In q l) /\
+  cat (delete_all st l) = cat st.
+Proof.
+  induction l as [|q l IH]; intros st HI.
+  - cbn [delete_all fold_left In]. split; [exact HI|split; [tauto|reflexivity]].
+  - change (delete_all st (q :: l)) with (delete_all (fst (delete_quad st q)) l).
+    destruct (delete_spec st q HI) as [HI' [Hh [Hc _]]].
+    destruct (IH _ HI') as [HI'' [Hh' Hc']]. split; [exact HI''|split; [|congruence]].
+    intros q'. rewrite Hh', Hh. cbn [In]. intuition congruence.
+Qed.
+
+Lemma clear_graph_spec st g : Inv st ->
+  Inv (clear_graph st g) /\
+  (forall q, has (clear_graph st g) q <-> has st q /\ qg q <> g) /\
+  cat (clear_graph st g) = cat st.
+Proof.
+  intros HI. unfold clear_graph.
+  set (st1 := if negb (N.eqb g 0) && graph_exists st g then _ else st).
+  assert (Hst1 : st1 = st).
+  { subst st1. destruct (negb (N.eqb g 0) && graph_exists st g) eqn:E; [|reflexivity].
+    rewrite (graph_exists_spec st g HI) in E. apply andb_true_iff in E. destruct E as [E1 E2].
+    apply negb_true_iff in E1. rewrite E1 in E2. cbn [orb] in E2. apply set_mem_in in E2.
+    rewrite (set_add_in_id _ _ E2). destruct st; reflexivity. }
+  rewrite Hst1. clear st1 Hst1.
+  destruct (delete_all_spec (query_graph st g None None None) st HI) as [HI' [Hh Hc]].
+  split; [exact HI'|split; [|exact Hc]].
+  intros q. rewrite Hh. destruct (query_graph_spec st g None None None HI) as [_ Hq].
+  rewrite Hq. unfold matches. cbn [opt_ok]. rewrite !andb_true_r, N.eqb_eq. tauto.
+Qed.
+
+Lemma drop_graph_spec st g : Inv st ->
+  Inv (fst (drop_graph st g)) /\
+  (forall q, has (fst (drop_graph st g)) q <->
+             has st q /\ (N.eqb g 0 || set_mem (N.pred g) (cat st) = true -> qg q <> g)) /\
+  (forall x, In x (cat (fst (drop_graph st g))) <-> In x (cat st) /\ (g <> 0 -> x <> N.pred g)) /\
+  snd (drop_graph st g) = (N.eqb g 0 || set_mem (N.pred g) (cat st)).
+Proof.
+  intros HI. unfold drop_graph. rewrite (graph_exists_spec st g HI).
+  destruct (clear_graph_spec st g HI) as [HI' [Hh Hc]].
+  destruct (N.eqb_spec g 0) as [->|Hne]; cbn [orb fst snd].
+  - pose proof (clear_graph_spec st 0 HI) as [HI0 [Hh0 Hc0]].
+    split; [exact HI0|split; [|split; [|reflexivity]]].
+    + intros q. rewrite Hh0. intuition.
+    + intros x. rewrite Hc0. intuition.
+  - destruct (set_mem (N.pred g) (cat st)) eqn:E; cbn [negb fst snd].
+    + split; [|split; [|split; [|reflexivity]]].
+      * destruct HI'. constructor; cbn [gspo gpos gosp spog cat]; auto.
+        -- apply NoDup_set_del; assumption.
+        -- intros s p o g' H Hg. apply in_set_del; [assumption|].
+           assert (Hh' : has (clear_graph st g) (s, p, o, g')) by exact H.
+           apply Hh in Hh'. cbn [qg snd] in Hh'. split; [lia|]. eauto.
+      * intros q. change (has (St _ _ _ (spog (clear_graph st g)) _) q)
+          with (has (clear_graph st g) q). rewrite Hh. intuition.
+      * intros x. cbn [cat]. rewrite in_set_del by (rewrite Hc; apply HI). rewrite Hc.
+        intuition.
+    + split; [exact HI|split; [|split; [|reflexivity]]].
+      * intros q. intuition discriminate.
+      * intros x. split; [|tauto]. intros H. split; [exact H|]. intros _ ->.
+        apply set_mem_in in H. congruence.
+Qed.
+
+Lemma fold_create_spec l : forall st, Inv st ->
+  let st' := fold_left (fun s g => fst (create_graph s g)) l st in
+  Inv st' /\ (forall q, has st' q <-> has st q) /\
+  (forall x, In x (cat st') <-> In x (cat st) \/ exists g, In g l /\ g <> 0 /\ x = N.pred g).
+Proof.
+  induction l as [|g l IH]; intros st HI; cbn [fold_left].
+  - split; [exact HI|split; [tauto|]]. intros x. split; [tauto|].
+    intros [H|[g [[] _]]]. exact H.
+  - destruct (create_spec st g HI) as [HI' [Hh Hc]].
+    destruct (IH _ HI') as [HI'' [Hh' Hc']]. cbv zeta in *.
+    split; [exact HI''|split].
+    + intros q. rewrite Hh', Hh. tauto.
+    + intros x. rewrite Hc', Hc. cbn [In]. destruct (N.eqb_spec g 0) as [->|Hne].
+      * split; [intros [H|[g' [H1 H2]]]; [now left|right; exists g'; tauto]|].
+        intros [H|[g' [[H0|H1] H2]]]; [now left| |right; exists g'; tauto].
+        subst g'. lia.
+      * rewrite in_set_add. split.
+        -- intros [[H|H]|[g' [H1 H2]]]; [right; exists g; tauto|now left|right; exists g'; tauto].
+        -- intros [H|[g' [[H0|H1] H2]]]; [tauto| |right; exists g'; tauto].
+           subst g'. left. left. tauto.
+Qed.
+
+Lemma fold_insert_spec l : forall st, Inv st ->
+  let st' := fold_left (fun s q => fst (insert_quad s q)) l st in
+  Inv st' /\ (forall q, has st' q <-> In q l \/ has st q) /\
+  (forall x, In x (cat st') <->
+             In x (cat st) \/ exists q, In q l /\ qg q <> 0 /\ x = N.pred (qg q)).
+Proof.
+  induction l as [|q0 l IH]; intros st HI; cbn [fold_left].
+  - split; [exact HI|split; [cbn [In]; tauto|]]. intros x. split; [tauto|].
+    intros [H|[g [[] _]]]. exact H.
+  - destruct (insert_spec st q0 HI) as [HI' [Hh [Hc _]]].
+    destruct (IH _ HI') as [HI'' [Hh' Hc']]. cbv zeta in *.
+    split; [exact HI''|split].
+    + intros q. rewrite Hh', Hh. cbn [In]. intuition congruence.
+    + intros x. rewrite Hc', Hc, in_register. cbn [In]. split.
+      * intros [[[H1 H2]|H]|[q [H1 H2]]];
+          [right; exists q0; tauto|now left|right; exists q; tauto].
+      * intros [H|[q [[H0|H1] H2]]]; [tauto| |right; exists q; tauto].
+        subst q. left. left. tauto.
+Qed.
+
+Lemma rebuild_spec st : Inv st ->
+  Inv (rebuild st) /\ (forall q, has (rebuild st) q <-> has st q) /\
+  (forall x, In x (cat (rebuild st)) <-> In x (cat st)).
+Proof.
+  intros HI. unfold rebuild.
+  destruct (fold_create_spec (named_graphs st) init Inv_init) as [HI1 [Hh1 Hc1]].
+  cbv zeta in *.
+  set (st1 := fold_left (fun s g => fst (create_graph s g)) (named_graphs st) init) in *.
+  destruct (fold_insert_spec (all_quads st) st1 HI1) as [HI2 [Hh2 Hc2]]. cbv zeta in *.
+  destruct (named_graphs_spec st HI) as [_ Hng]. destruct (all_quads_spec st HI) as [_ Haq].
+  split; [exact HI2|split].
+  - intros q. rewrite Hh2, Hh1, Haq. split; [|tauto]. intros [H|H]; [exact H|].
+    exfalso. revert H. unfold has, contains_quad. cbn [init spog].
+    rewrite t_mem_empty. discriminate.
+  - intros x. rewrite Hc2, Hc1. cbn [init cat In]. split.
+    + intros [[[]|[g [Hg [Hz ->]]]]|[q [Hq [Hz ->]]]].
+      * apply Hng in Hg. tauto.
+      * apply Haq in Hq. apply has_cat; assumption.
+    + intros H. left. right. exists (N.succ x). split; [|split; lia].
+      apply Hng. split; [lia|]. rewrite N.pred_succ. exact H.
+Qed.
+
+(* ---------- the abstraction relation and the simulation step ---------- *)
+
+Record Abs (st : state) (sp : sstate) : Prop := {
+  abs_inv : Inv st;
+  abs_ndq : NoDup (sq sp);
+  abs_ndc : NoDup (scat sp);
+  abs_q : forall q, In q (sq sp) <-> contains_quad st q = true;
+  abs_c : forall g, In g (scat sp) <-> In g (cat st)
+}.
+
+Lemma Abs_init : Abs init sinit.
+Proof.
+  constructor; cbn [sinit sq scat].
+  - apply Inv_init.
+  - constructor.
+  - constructor.
+  - intros q. split; [intros []|]. unfold contains_quad. cbn [init spog].
+    rewrite t_mem_empty. discriminate.
+  - intros g. cbn [init cat]. tauto.
+Qed.
+
+Lemma abs_contains st sp q : Abs st sp -> contains_quad st q = qmem q (sq sp).
+Proof.
+  intros HA. apply eq_true_iff_eq. rewrite qmem_in. symmetry. apply (abs_q _ _ HA).
+Qed.
+
+Lemma abs_set_mem st sp x : Abs st sp -> set_mem x (cat st) = set_mem x (scat sp).
+Proof.
+  intros HA. apply set_mem_iff_eq. symmetry. apply (abs_c _ _ HA).
+Qed.
+
+Lemma abs_filter st sp (l : list quad) (f : quad -> bool) (P : quad -> Prop) :
+  Abs st sp -> NoDup l -> (forall q, In q l <-> P q /\ has st q) ->
+  (forall q, f q = true <-> P q) -> same_set l (filter f (sq sp)).
+Proof.
+  intros HA Hnd Hl Hf. split; [exact Hnd|split].
+  - apply NoDup_filter. apply (abs_ndq _ _ HA).
+  - intros q. rewrite filter_In, Hl, Hf, (abs_q _ _ HA). unfold has. tauto.
+Qed.
+
+Lemma abs_query_graph st sp g s p o : Abs st sp ->
+  same_set (query_graph st g s p o) (s_query_graph sp g s p o).
+Proof.
+  intros HA. destruct (query_graph_spec st g s p o (abs_inv _ _ HA)) as [Hnd Hq].
+  unfold s_query_graph.
+  apply (abs_filter st sp _ _ (fun q => matches g s p o q = true) HA Hnd Hq). tauto.
+Qed.
+
+Lemma NoDup_map_succ l : NoDup l -> NoDup (map N.succ l).
+Proof. intros H. apply NoDup_map_inj_on; [exact H|]. intros x y _ _ E. lia. Qed.
+
+Lemma abs_named_graphs st sp : Abs st sp -> same_set (named_graphs st) (map N.succ (scat sp)).
+Proof.
+  intros HA. destruct (named_graphs_spec st (abs_inv _ _ HA)) as [Hnd Hng].
+  split; [exact Hnd|split; [apply NoDup_map_succ; apply (abs_ndc _ _ HA)|]].
+  intros x. rewrite Hng, in_map_iff. split.
+  - intros [Hz Hin]. exists (N.pred x). split; [lia|]. apply (abs_c _ _ HA). exact Hin.
+  - intros [y [<- Hy]]. split; [lia|]. rewrite N.pred_succ. apply (abs_c _ _ HA). exact Hy.
+Qed.
+
+Lemma same_set_cons0 (a b : list N) :
+  same_set a (map N.succ b) -> same_set (0 :: a) (0 :: map N.succ b).
+Proof.
+  intros [Ha [Hb Hab]]. assert (Hz : ~ In 0 (map N.succ b)).
+  { intros H. apply in_map_iff in H. destruct H as [y [Hy _]]. lia. }
+  split; [|split].
+  - constructor; [|exact Ha]. intros H. apply Hab in H. tauto.
+  - constructor; assumption.
+  - intros x. cbn [In]. rewrite Hab. tauto.
+Qed.
+
+Lemma step_sim st sp o : Abs st sp ->
+  out_agree (snd (step st o)) (snd (sstep sp o)) /\ Abs (fst (step st o)) (fst (sstep sp o)).
+Proof.
+  intros HA. pose proof (abs_inv _ _ HA) as HI.
+  destruct o as [q|q|g|g|g| | |q|g s p o|s p o vis|gs s p o|s p o g|g| | | |s p o|g];
+    cbn [step sstep fst snd out_agree].
+  - (* Insert *)
+    destruct (insert_spec st q HI) as [HI' [Hh [Hc Hs]]]. split.
+    + rewrite Hs. f_equal. apply abs_contains. exact HA.
+    + constructor; cbn [sq scat].
+      * exact HI'.
+      * apply NoDup_qadd. apply (abs_ndq _ _ HA).
+      * apply NoDup_register. apply (abs_ndc _ _ HA).
+      * intros q'. rewrite in_qadd. rewrite (abs_q _ _ HA). symmetry. apply Hh.
+      * intros x. rewrite Hc. change (s_register (qg q) (scat sp)) with
+          (register_graph (qg q) (scat sp)). rewrite !in_register, (abs_c _ _ HA). tauto.
+  - (* Delete *)
+    destruct (delete_spec st q HI) as [HI' [Hh [Hc Hs]]]. split.
+    + rewrite Hs. f_equal. apply abs_contains. exact HA.
+    + constructor; cbn [sq scat].
+      * exact HI'.
+      * apply NoDup_filter. apply (abs_ndq _ _ HA).
+      * apply (abs_ndc _ _ HA).
+      * intros q'. rewrite in_qdel. rewrite (abs_q _ _ HA). symmetry. apply Hh.
+      * intros x. rewrite Hc. apply (abs_c _ _ HA).
+  - (* Create *)
+    destruct (create_spec st g HI) as [HI' [Hh Hc]]. unfold create_graph in *.
+    destruct (N.eqb_spec g 0) as [->|Hne]; cbn [fst snd out_agree] in *.
+    + split; [reflexivity|exact HA].
+    + split.
+      * rewrite (graph_exists_spec st g HI). destruct (N.eqb_spec g 0); [contradiction|].
+        cbn [orb]. f_equal. apply abs_set_mem. exact HA.
+      * constructor; cbn [sq scat].
+        -- exact HI'.
+        -- apply (abs_ndq _ _ HA).
+        -- apply NoDup_set_add. apply (abs_ndc _ _ HA).
+        -- intros q. rewrite (abs_q _ _ HA). reflexivity.
+        -- intros x. cbn [cat]. rewrite !in_set_add, (abs_c _ _ HA). tauto.
+  - (* Drop *)
+    destruct (drop_graph_spec st g HI) as [HI' [Hh [Hc Hs]]].
+    rewrite (abs_set_mem st sp _ HA) in Hh, Hs.
+    destruct (N.eqb_spec g 0) as [->|Hne]; cbn [orb fst snd out_agree] in *.
+    + split; [exact Hs|]. constructor; cbn [s_clear_graph sq scat].
+      * exact HI'.
+      * apply NoDup_filter. apply (abs_ndq _ _ HA).
+      * apply (abs_ndc _ _ HA).
+      * intros q. rewrite filter_In, negb_true_iff, N.eqb_neq, (abs_q _ _ HA).
+        unfold has in Hh. rewrite Hh. intuition.
+      * intros x. rewrite Hc, (abs_c _ _ HA). tauto.
+    + destruct (set_mem (N.pred g) (scat sp)) eqn:E; cbn [fst snd out_agree].
+      * split; [exact Hs|]. constructor; cbn [s_clear_graph sq scat].
+        -- exact HI'.
+        -- apply NoDup_filter. apply (abs_ndq _ _ HA).
+        -- apply NoDup_set_del. apply (abs_ndc _ _ HA).
+        -- intros q. rewrite filter_In, negb_true_iff, N.eqb_neq, (abs_q _ _ HA).
+           unfold has in Hh. rewrite Hh. tauto.
+        -- intros x. rewrite Hc, in_set_del by apply (abs_ndc _ _ HA).
+           rewrite (abs_c _ _ HA). tauto.
+      * split; [exact Hs|]. constructor.
+        -- exact HI'.
+        -- apply (abs_ndq _ _ HA).
+        -- apply (abs_ndc _ _ HA).
+        -- intros q. rewrite (abs_q _ _ HA). unfold has in Hh. rewrite Hh.
+           intuition discriminate.
+        -- intros x. rewrite Hc, (abs_c _ _ HA). split; [|tauto]. intros H.
+           split; [exact H|]. intros _ ->. apply (abs_c _ _ HA) in H.
+           apply set_mem_in in H. congruence.
+  - (* ClearG *)
+    destruct (clear_graph_spec st g HI) as [HI' [Hh Hc]]. split; [exact I|].
+    constructor; cbn [s_clear_graph sq scat].
+    + exact HI'.
+    + apply NoDup_filter. apply (abs_ndq _ _ HA).
+    + apply (abs_ndc _ _ HA).
+    + intros q. rewrite filter_In, negb_true_iff, N.eqb_neq, (abs_q _ _ HA).
+      unfold has in Hh. rewrite Hh. tauto.
+    + intros x. rewrite Hc. apply (abs_c _ _ HA).
+  - (* ClearAll *)
+    split; [exact I|apply Abs_init].
+  - (* Rebuild *)
+    destruct (rebuild_spec st HI) as [HI' [Hh Hc]]. split; [exact I|]. constructor.
+    + exact HI'.
+    + apply (abs_ndq _ _ HA).
+    + apply (abs_ndc _ _ HA).
+    + intros q. rewrite (abs_q _ _ HA). symmetry. apply Hh.
+    + intros x. rewrite Hc. apply (abs_c _ _ HA).
+  - (* Contains *)
+    split; [|exact HA]. f_equal. apply abs_contains. exact HA.
+  - (* QGraph *)
+    split; [|exact HA]. apply abs_query_graph. exact HA.
+  - (* QNamed *)
+    split; [|exact HA]. destruct (query_named_spec st s p o vis HI) as [Hnd Hq].
+    apply (abs_filter st sp _ _ (fun q => named_pred s p o vis q = true) HA Hnd Hq).
+    intros q. unfold named_pred. tauto.
+  - (* QMerged *)
+    split; [|exact HA]. unfold query_merged_graphs.
+    split; [apply NoDup_qdedup|split; [apply NoDup_qdedup|]].
+    intros x. rewrite !in_qdedup, !in_map_iff.
+    assert (Hin : forall q, In q (flat_map (fun g => query_graph st g s p o) gs) <->
+                            In q (filter (fun q => set_mem (qg q) gs && opt_ok s (qs q) &&
+                                                   opt_ok p (qp q) && opt_ok o (qo q)) (sq sp))).
+    { intros q. rewrite in_flat_map, filter_In, (abs_q _ _ HA). split.
+      - intros [g [Hg H]]. apply (query_graph_spec st g s p o HI) in H. destruct H as [Hm Hh].
+        split; [exact Hh|]. unfold matches in Hm. belim. subst g.
+        rewrite !andb_true_iff, set_mem_in. tauto.
+      - intros [Hh Hb]. belim. exists (qg q).
+        match goal with H : set_mem _ _ = true |- _ => apply set_mem_in in H end.
+        split; [assumption|]. apply (query_graph_spec st (qg q) s p o HI). split; [|exact Hh].
+        unfold matches. rewrite N.eqb_refl, !andb_true_iff. tauto. }
+    split; intros [q [Hq H]]; exists q; (split; [exact Hq|]); apply Hin; exact H.
+  - (* QQuads *)
+    split; [|exact HA]. unfold query_quads. destruct g as [gg|].
+    + destruct (query_graph_spec st gg s p o HI) as [Hnd Hq].
+      apply (abs_filter st sp _ _ (fun q => matches gg s p o q = true) HA Hnd Hq).
+      intros q. unfold matches. cbn [opt_ok]. rewrite (N.eqb_sym gg (qg q)). tauto.
+    + destruct (query_graph_spec st 0 s p o HI) as [Hnd0 Hq0].
+      destruct (query_named_spec st s p o None HI) as [Hnd1 Hq1].
+      apply (abs_filter st sp _ _
+               (fun q => matches 0 s p o q = true \/ named_pred s p o None q = true) HA).
+      * apply NoDup_app_intro; [exact Hnd0|exact Hnd1|].
+        intros x H0 H1. apply Hq0 in H0. apply Hq1 in H1. destruct H0 as [H0 _], H1 as [H1 _].
+        apply matches_qg in H0. unfold named_pred in H1. belim. congruence.
+      * intros q. rewrite in_app_iff, Hq0, Hq1. tauto.
+      * intros q. unfold matches, named_pred. cbn [opt_ok vis_ok].
+        destruct (N.eqb (qg q) 0), (opt_ok s (qs q)), (opt_ok p (qp q)), (opt_ok o (qo q));
+          cbn [andb negb]; intuition discriminate.
+  - (* GExists *)
+    split; [|exact HA]. rewrite (graph_exists_spec st g HI). unfold s_exists. f_equal.
+    apply abs_set_mem. exact HA.
+  - (* NamedGraphs *)
+    split; [|exact HA]. apply abs_named_graphs. exact HA.
+  - (* Graphs *)
+    split; [|exact HA]. unfold graphs. apply same_set_cons0. apply abs_named_graphs. exact HA.
+  - (* AllQuads *)
+    split; [|exact HA]. destruct (all_quads_spec st HI) as [Hnd Hq].
+    split; [exact Hnd|split; [apply (abs_ndq _ _ HA)|]].
+    intros q. rewrite Hq, (abs_q _ _ HA). reflexivity.
+  - (* GraphsFor *)
+    split; [|exact HA]. destruct (graphs_for_spec st s p o HI) as [Hnd Hq].
+    split; [exact Hnd|split].
+    + apply NoDup_map_inj_on; [apply NoDup_filter; apply (abs_ndq _ _ HA)|].
+      intros [[[s1 p1] o1] g1] [[[s2 p2] o2] g2] H1 H2 Hg.
+      apply filter_In in H1. apply filter_In in H2. destruct H1 as [_ H1], H2 as [_ H2].
+      cbn [qs qp qo qg fst snd] in *. belim. subst. reflexivity.
+    + intros x. rewrite Hq, in_map_iff. split.
+      * intros H. exists (s, p, o, x). split; [reflexivity|]. apply filter_In.
+        split; [apply (abs_q _ _ HA); exact H|]. cbn [qs qp qo fst snd].
+        rewrite !N.eqb_refl. reflexivity.
+      * intros [[[[s1 p1] o1] g1] [Hx H]]. apply filter_In in H. destruct H as [Hin Hb].
+        cbn [qs qp qo qg fst snd] in *. belim. subst. apply (abs_q _ _ HA). exact Hin.
+  - (* LenG *)
+    split; [|exact HA]. apply (f_equal N.of_nat). apply same_set_length. apply abs_query_graph. exact HA.
+Qed.
+
+Lemma refines_gen ops : forall st sp, Abs st sp ->
+  Forall2 out_agree (snd (run st ops)) (snd (srun sp ops)) /\
+  Abs (fst (run st ops)) (fst (srun sp ops)).
+Proof.
+  induction ops as [|o ops IH]; intros st sp HA; cbn [run srun fst snd].
+  - split; [constructor|exact HA].
+  - destruct (step_sim st sp o HA) as [Hout HA']. destruct (IH _ _ HA') as [Hrest HA''].
+    split; [constructor; assumption|exact HA''].
+Qed.
+
+Theorem refines : forall ops : list op,
+  Forall2 out_agree (snd (run init ops)) (snd (srun sinit ops)) /\
+  Abs (fst (run init ops)) (fst (srun sinit ops)).
+Proof. intros ops. apply refines_gen. apply Abs_init. Qed.
+
+Theorem lookup_exact : forall (ops : list op) (g : N) (s p o : option N),
+  let st := fst (run init ops) in
+  let sp := fst (srun sinit ops) in
+  NoDup (query_graph st g s p o) /\
+  forall q, In q (query_graph st g s p o) <-> (matches g s p o q = true /\ In q (sq sp)).
+Proof.
+  intros ops g s p o st sp. destruct (refines ops) as [_ HA]. fold st sp in HA.
+  destruct (query_graph_spec st g s p o (abs_inv _ _ HA)) as [Hnd Hq].
+  split; [exact Hnd|]. intros q. rewrite Hq, (abs_q _ _ HA). reflexivity.
+Qed.
+
+Theorem rebuild_abs : forall ops, Abs (rebuild (fst (run init ops))) (fst (srun sinit ops)).
+Proof.
+  intros ops. destruct (refines ops) as [_ HA].
+  apply (step_sim _ _ Rebuild HA).
+Qed.
+
+(* ---------- catalog history ---------- *)
+
+(* same bodies as `introduces` / `removes` of C04.v *)
+Definition intro_op (g : N) (o : op) : bool :=
+  match o with
+  | Create g' => N.eqb g' (N.succ g)
+  | Insert q => N.eqb (qg q) (N.succ g)
+  | _ => false
+  end.
+Definition remove_op (g : N) (o : op) : bool :=
+  match o with
+  | Drop g' => N.eqb g' (N.succ g)
+  | ClearAll => true
+  | _ => false
+  end.
+
+Lemma scat_step sp o g : NoDup (scat sp) ->
+  (In g (scat (fst (sstep sp o))) <->
+   intro_op g o = true \/ (In g (scat sp) /\ remove_op g o = false)).
+Proof.
+  intros Hnd.
+  assert (Hsame : In g (scat sp) <-> false = true \/ (In g (scat sp) /\ false = false)).
+  { split; [intros H; right; split; [exact H|reflexivity]|].
+    intros [H|[H _]]; [discriminate H|exact H]. }
+  destruct o as [q|q|g'|g'|g'| | |q|g' s p o|s p o vis|gs s p o|s p o g'|g'| | | |s p o|g'];
+    cbn [sstep fst scat intro_op remove_op s_clear_graph]; try exact Hsame.
+  - (* Insert *)
+    change (s_register (qg q) (scat sp)) with (register_graph (qg q) (scat sp)).
+    rewrite in_register, N.eqb_eq. split.
+    + intros [[H1 H2]|H]; [left; lia|right; tauto].
+    + intros [H|[H _]]; [left; lia|right; exact H].
+  - (* Create *)
+    destruct (N.eqb_spec g' 0) as [->|Hne]; cbn [fst scat].
+    + rewrite N.eqb_eq. split; [intros H; right; tauto|]. intros [H|[H _]]; [lia|exact H].
+    + rewrite in_set_add, N.eqb_eq. split.
+      * intros [H|H]; [left; lia|right; tauto].
+      * intros [H|[H _]]; [left; lia|right; exact H].
+  - (* Drop *)
+    rewrite N.eqb_neq. destruct (N.eqb_spec g' 0) as [->|Hne]; cbn [fst scat s_clear_graph].
+    + split; [intros H; right; split; [exact H|lia]|]. intros [H|[H _]]; [discriminate|exact H].
+    + destruct (set_mem (N.pred g') (scat sp)) eqn:E; cbn [fst scat].
+      * rewrite (in_set_del _ _ _ Hnd). split.
+        -- intros [H1 H2]. right. split; [exact H2|lia].
+        -- intros [H|[H1 H2]]; [discriminate|]. split; [lia|exact H1].
+      * split.
+        -- intros H. right. split; [exact H|]. intros ->. rewrite N.pred_succ in E.
+           apply set_mem_in in H. congruence.
+        -- intros [H|[H _]]; [discriminate|exact H].
+  - (* ClearAll *)
+    cbn [sinit scat In]. split; [intros []|]. intros [H|[_ H]]; discriminate.
+Qed.
+
+Lemma graph_exists_abs st sp g : Abs st sp ->
+  (graph_exists st (N.succ g) = true <-> In g (scat sp)).
+Proof.
+  intros HA. rewrite (graph_exists_spec st _ (abs_inv _ _ HA)).
+  destruct (N.eqb_spec (N.succ g) 0) as [E|_]; [lia|]. cbn [orb].
+  rewrite N.pred_succ, set_mem_in. symmetry. apply (abs_c _ _ HA).
+Qed.
+
+Lemma catalog_gen ops : forall st sp g, Abs st sp ->
+  (graph_exists (fst (run st ops)) (N.succ g) = true <->
+   (exists pre o post, ops = pre ++ o :: post /\ intro_op g o = true /\
+                       forallb (fun x => negb (remove_op g x)) post = true) \/
+   (In g (scat sp) /\ forallb (fun x => negb (remove_op g x)) ops = true)).
+Proof.
+  induction ops as [|o ops IH]; intros st sp g HA; cbn [run fst].
+  - rewrite (graph_exists_abs st sp g HA). cbn [forallb]. split; [tauto|].
+    intros [[pre [o [post [H _]]]]|[H _]]; [|exact H]. destruct pre; discriminate.
+  - destruct (step_sim st sp o HA) as [_ HA']. rewrite (IH _ _ g HA').
+    rewrite (scat_step sp o g (abs_ndc _ _ HA)). cbn [forallb]. split.
+    + intros [[pre [o' [post [Hops [Hi Hp]]]]]|[[Hi|[Hin Hr]] Hp]].
+      * left. exists (o :: pre), o', post. subst ops. split; [reflexivity|tauto].
+      * left. exists [], o, ops. split; [reflexivity|tauto].
+      * right. split; [exact Hin|]. rewrite Hr, Hp. reflexivity.
+    + intros [[pre [o' [post [Hops [Hi Hp]]]]]|[Hin Hb]].
+      * destruct pre as [|a pre]; cbn [app] in Hops; injection Hops as -> ->.
+        -- right. split; [left; exact Hi|exact Hp].
+        -- left. exists pre, o', post. split; [reflexivity|tauto].
+      * apply andb_true_iff in Hb. destruct Hb as [Hr Hp]. apply negb_true_iff in Hr.
+        right. split; [right; tauto|exact Hp].
+Qed.
+
+Theorem catalog_history : forall (ops : list op) (g : N),
+  graph_exists (fst (run init ops)) (N.succ g) = true <->
+  exists pre o post, ops = pre ++ o :: post /\ intro_op g o = true /\
+                     forallb (fun x => negb (remove_op g x)) post = true.
+Proof.
+  intros ops g. rewrite (catalog_gen ops init sinit g Abs_init). cbn [sinit scat In]. tauto.
+Qed.
